@@ -8,7 +8,8 @@ Inductive c08case :=
         (i n : option Z)                                 (* None: an argument that is not an integer *)
         (out : res (list Z))
 | StartTime (lo_dtm hi_dtm : Z) (ts off : option Z) (out : res Z)
-| Irregular (l : list Z) (out : res unit).              (* Timing.create_with_irregular_interval(l) *)
+| Irregular (l : list Z) (out : res unit)               (* Timing.create_with_irregular_interval(l) *)
+| IrregularBad (out : res unit).                       (* ... of a sequence holding a non-datetime element, in any order *)
 
 Definition inr (lo hi v : Z) : bool := (lo <=? v) && (v <=? hi).
 
@@ -44,4 +45,5 @@ Definition c08_spec_ok (c : c08case) : bool :=
       | Ok _ => monotone l
       | Raise e => negb (monotone l) && exn_isa e ValueError
       end
+  | IrregularBad out => match out with Raise e => exn_isa e TypeError | Ok _ => false end
   end.
